@@ -215,7 +215,9 @@ fn run_scenario(seed: u64, mode: &str) -> ScenarioResult {
                     if let Some((s, p, s2, p2)) = c.window {
                         if s == p && s2 == p2 && p == p2 {
                             out.idle_calls += 1;
-                            if idx != p {
+                            // Older than the latest completed publication = failed to catch up. (Newer can
+                            // only mean the next update had begun by the time the call looked: not stale.)
+                            if idx < p {
                                 out.violations.push(format!("C03 stale-in-idle-window: reader {} returned {} with publication {} complete and none in flight", ri, idx, p));
                             }
                         }
